@@ -72,7 +72,12 @@ func runRounds(seed int64, pattern string, n int) roundsResult {
 		} else {
 			memkv.SetJitter(0, 0)
 		}
-		rep := oneRound(rng, pattern, i)
+		var rep roundReport
+		if pattern == "reservation" {
+			rep = reservationRound(rng, i)
+		} else {
+			rep = oneRound(rng, pattern, i)
+		}
 		rep.JitterHits = memkv.JitterHits()
 		out.Rounds = append(out.Rounds, rep)
 		if rep.Hung {
@@ -588,4 +593,211 @@ func checkLinearizable(reqs []*request, base *refmodel.State, height int64, prob
 	default:
 		return "unknown"
 	}
+}
+
+// reservationRound: "an output selected with locking is never handed to two selectors" also has a
+// one-at-a-time reading. Wallet A reserves outputs of an address through SelectUtxos(lock); then
+// other requests that merely NAME a reserved output come and go - a transaction refused by the
+// admission checks (one of its other inputs is already spent; unbalanced), a transaction refused
+// as a double spend, a non-locking selection - and further locking selections for the same
+// address run, some of them concurrently with those requests. No later locking selection may
+// return an output A still holds, and A's own transaction must be admitted in the end.
+func reservationRound(rng *rand.Rand, idx int) (rep roundReport) {
+	rep.Pattern, rep.Round = "reservation", idx
+	problem := func(sig, f string, a ...interface{}) {
+		rep.Problems = append(rep.Problems, sig+" ## "+fmt.Sprintf(f, a...))
+	}
+	defer func() {
+		if p := recover(); p != nil {
+			problem("panic|"+strings.SplitN(fmt.Sprint(p), "\n", 2)[0], "panic: %v", p)
+		}
+	}()
+	o := gen.DefaultOpts()
+	o.Linear = true
+	o.MaxBlocks = 4
+	o.KV = false
+	o.Frozen = false
+	t, err := gen.NewTree(o)
+	if err != nil {
+		problem("harness|setup", "%v", err)
+		return
+	}
+	defer t.Drop()
+	for i := 0; i < 2; i++ {
+		if _, err := t.AddBlock(rng, len(t.Blocks)-1, 3+rng.Intn(3), nil); err != nil {
+			problem("generator|fresh-replay-failed", "%v", err)
+			return
+		}
+	}
+	base := len(t.Blocks) - 1
+	s, err := hist.NewSUT(t)
+	if err != nil {
+		problem("harness|setup", "%v", err)
+		return
+	}
+	defer func() { s.N.Drop() }()
+	for i := 1; i <= base; i++ {
+		s.Confirm(i)
+	}
+	if op := s.Walk(base, false); op.Result != "ok" {
+		problem("harness|setup", "walk to base failed: %s", op.Result)
+		return
+	}
+	if idx%2 == 1 {
+		// cold caches: selections go through the table scan
+		if op := s.Reopen(); op.Result != "ok" {
+			problem("harness|setup", "reopen failed: %s", op.Result)
+			return
+		}
+	}
+	ai := rng.Intn(3)
+	A, B := sn.K(ai), sn.K((ai+1)%3)
+	keyOf := func(in *protos.TxInput) string { return utxo.GenUtxoKey(in.FromAddr, in.RefTxid, in.RefOffset) }
+	// wallet A reserves
+	insA, _, totA, err := s.N.State.SelectUtxos(A.Address, big.NewInt(int64(1+rng.Intn(30))), true, false)
+	if err != nil || len(insA) == 0 {
+		return
+	}
+	held := map[string]bool{}
+	for _, in := range insA {
+		held[keyOf(in)] = true
+	}
+	rep.Events = fmt.Sprintf("held%d", len(insA))
+	// an output of B, and a transaction that spends it (admitted first)
+	insB, _, totB, err := s.N.State.SelectUtxos(B.Address, big.NewInt(1), false, false)
+	if err != nil || len(insB) == 0 {
+		return
+	}
+	spendB, err := sn.BuildTx(sn.TxSpec{Initiator: B.Address, Signers: []*sn.Key{B}, Inputs: insB,
+		Outputs: []sn.Out{{To: B.Address, Amount: totB}}, Nonce: fmt.Sprintf("resB%d", idx), Timestamp: 9100})
+	if err != nil {
+		return
+	}
+	if err := s.N.State.DoTx(sn.CloneTx(spendB)); err != nil {
+		problem("harness|setup", "spendB not admitted: %v", err)
+		return
+	}
+	// requests that merely name A's reserved output
+	sum := new(big.Int).Add(new(big.Int).SetBytes(insA[0].Amount), totB)
+	joint, _ := sn.BuildTx(sn.TxSpec{Initiator: A.Address, Signers: []*sn.Key{A, B}, Inputs: append([]*protos.TxInput{insA[0]}, insB...),
+		Outputs: []sn.Out{{To: A.Address, Amount: sum}}, Nonce: fmt.Sprintf("resJ%d", idx), Timestamp: 9101}) // B's output is gone: refused by the admission checks
+	unbalanced, _ := sn.BuildTx(sn.TxSpec{Initiator: A.Address, Signers: []*sn.Key{A}, Inputs: insA[:1],
+		Outputs: []sn.Out{{To: B.Address, Amount: new(big.Int).Add(new(big.Int).SetBytes(insA[0].Amount), big.NewInt(5))}}, Nonce: fmt.Sprintf("resU%d", idx), Timestamp: 9102})
+	var others []*pb.Transaction
+	for _, x := range []*pb.Transaction{joint, unbalanced} {
+		if x != nil {
+			others = append(others, x)
+		}
+	}
+	// run them next to two further locking selections and a non-locking one
+	type selRes struct {
+		keys []string
+		err  error
+	}
+	sels := make([]selRes, 3)
+	var wg sync.WaitGroup
+	start := make(chan struct{})
+	concurrent := idx%3 != 0
+	run := func(f func()) {
+		if concurrent {
+			wg.Add(1)
+			go func() { defer wg.Done(); <-start; f() }()
+		} else {
+			f()
+		}
+	}
+	refused := 0
+	var refMu sync.Mutex
+	for _, x := range others {
+		x := x
+		run(func() {
+			if err := s.N.State.DoTx(sn.CloneTx(x)); err != nil {
+				refMu.Lock()
+				refused++
+				refMu.Unlock()
+			}
+		})
+	}
+	for i := range sels {
+		i := i
+		run(func() {
+			lock := i < 2
+			ins, _, _, err := s.N.State.SelectUtxos(A.Address, new(big.Int).Add(totA, big.NewInt(int64(1+i))), lock, false)
+			sels[i].err = err
+			if lock {
+				for _, in := range ins {
+					sels[i].keys = append(sels[i].keys, keyOf(in))
+				}
+			}
+		})
+	}
+	if concurrent {
+		done := make(chan struct{})
+		go func() { wg.Wait(); close(done) }()
+		close(start)
+		select {
+		case <-done:
+		case <-time.After(90 * time.Second):
+			rep.Hung = true
+			return
+		}
+	}
+	rep.Refused = refused
+	// a last locking selection after everything has returned
+	last, _, _, _ := s.N.State.SelectUtxos(A.Address, new(big.Int).Add(totA, big.NewInt(7)), true, false)
+	var lastKeys []string
+	for _, in := range last {
+		lastKeys = append(lastKeys, keyOf(in))
+	}
+	seen := map[string]string{}
+	for k := range held {
+		seen[k] = "wallet A (first selection)"
+	}
+	check := func(who string, keys []string) {
+		for _, k := range keys {
+			if prev, dup := seen[k]; dup {
+				problem("select|reserved-output-handed-out-again", "output %s, reserved by %s and never released by its holder, was returned to %s (%d transactions naming reserved outputs were refused in between)", k, prev, who, refused)
+			}
+			seen[k] = who
+		}
+	}
+	for i, sr := range sels {
+		check(fmt.Sprintf("locking selection %d", i), sr.keys)
+	}
+	check("the final locking selection", lastKeys)
+	rep.Overlap = btoiLocal(concurrent)
+	// wallet A now submits what it reserved the outputs for
+	own, err := sn.BuildTx(sn.TxSpec{Initiator: A.Address, Signers: []*sn.Key{A}, Inputs: insA,
+		Outputs: []sn.Out{{To: B.Address, Amount: totA}}, Nonce: fmt.Sprintf("resA%d", idx), Timestamp: 9103})
+	if err == nil {
+		if derr := s.N.State.DoTx(sn.CloneTx(own)); derr != nil {
+			problem("select|holder-of-reservation-refused", "wallet A's own transaction over the outputs it had reserved is refused: %v", derr)
+		} else {
+			rep.Admitted++
+		}
+	}
+	rep.Results = append(rep.Results, fmt.Sprintf("held=%d refused=%d concurrent=%v", len(insA), refused, concurrent))
+	// quiescent-state auditors
+	if len(rep.Problems) == 0 {
+		hist.CanonSelect = false
+		hist.TwinSelect = false
+		op := hist.Op{Kind: "reservation"}
+		for _, a := range []hist.Auditor{hist.ModelAuditor, hist.TwinAuditor} {
+			if ps := a(s, op); len(ps) > 0 {
+				for _, p := range ps {
+					problem(p.Sig, "%s", p.Detail)
+				}
+				break
+			}
+		}
+	}
+	rep.Porcupine = "none"
+	return
+}
+
+func btoiLocal(b bool) int {
+	if b {
+		return 1
+	}
+	return 0
 }
